@@ -12,6 +12,10 @@ CLAIMED={
         "Trusted: engine, the regexp term encoding (validated per pattern object against the real package on all strings <=4 over a pattern alphabet), cvc5/z3. Out: patterns outside the pool, longer hosts, non-ASCII."),
  "C18":("ViaModifier.ModifyRequest runs symbolically for every boundary (4/8 hex chars), 0..2/3 Via lines of <=10/12 arbitrary printable bytes incl. same-name peer elements and three protocol versions: loop <=> some line contains the instance tag => 400 + Close; otherwise all earlier elements kept in order with the own element last.",
         "Trusted: engine + string models, cvc5/z3. Out: longer chains/lines, the pipeline part (400 reaches the client, nothing contacted upstream) is under C04/C12, real two-proxy loops."),
+ "C09":("One arbitrary flow-control operation (WINDOW_UPDATE stream/connection, SETTINGS_INITIAL_WINDOW_SIZE up/down, DATA from a processor, zero-cost frame) from an arbitrary quiescent pre-state of the real relay (symbolic windows incl. negative, queues <=2) is checked against an RFC 7540 6.9 credit ledger (inductive step); DATA/header splitting for symbolic max frame size; WINDOW_UPDATE credit for DATA frames parsed by the real x/net Framer from symbolic bytes incl. padding.",
+        "Trusted: engine, interpreted x/net/http2 Framer, cvc5/z3. Out: interleavings finer than flowMu critical sections, writer goroutine/channel capacity, window overflow past 2^31-1, wire bytes written by the Framer."),
+ "C10":("processFrame is driven with frames parsed by the real Framer: HEADERS/PUSH_PROMISE + 0..2 CONTINUATION at every split of a valid HPACK block (real hpack decoder), symbolic flags/priority/promised id; RST_STREAM, PRIORITY, PING, GOAWAY, SETTINGS(+ack), WINDOW_UPDATE, DATA with symbolic payloads relayed field-for-field; queued header blocks written and re-parsed; client preface under every 2-segment split. Per-stream FIFO and no-stranding are decided in the C09 step harness.",
+        "Trusted: engine, interpreted x/net http2+hpack, cvc5/z3. Out: HPACK re-encoding/table-size changes, relayFrames goroutines and eventual delivery through the writer goroutine, gRPC layers, multiple interleaved streams beyond the C09 step."),
 }
 NA={
  "C14":"deciding code is the goja JavaScript VM executing PAC scripts; not encodable by a Go-SSA symbolic executor (result-list parsing is covered under C05)",
